@@ -390,7 +390,9 @@ func (cs *concurrentStrategy) extractMemberFromItem(item string) (*parsedMember,
 		Key: item,
 	}
 
-	parts := strings.Split(item, memberDelimiter)
+	// the instance ID is the last component and may itself contain the delimiter
+	// (it is whatever GATEWAY_INSTANCE_ID holds): split off the first two only
+	parts := strings.SplitN(item, memberDelimiter, validMemberKeyParts)
 	if len(parts) != validMemberKeyParts {
 		log.Error().
 			Msgf("invalid format, expected {enter_timestamp}%s{value}%s{expiry_timestamp}.",
